@@ -7,6 +7,10 @@
 // package's qualifier; every other string must be unchanged modulo qualifier renaming; the
 // import list must be exactly the set of referenced packages. A third run renders B through
 // a built-in template under gofmt (no import repair) and the toolchain must accept it.
+//
+// Two case shapes: a single package with the levels root / package / interface config /
+// configs entry (this file), and a package tree with a recursive listed package, listed and
+// unlisted sub-packages and an unrelated package (tree_test.go).
 package c13
 
 import (
@@ -46,6 +50,31 @@ type Case struct {
 	Entries   int           `json:"entries"`           // number of configs entries of Svc (0 = none)
 	InPackage bool          `json:"in_package"`        // mocks rendered into the source package
 	Template  string        `json:"template"`          // built-in template of the compile run
+	// Tree, when set, replaces the single package by a package tree (see TPkg); Svc, Other,
+	// Package, Iface, Entry, Listed and Entries are unused then and the mocks are in-package.
+	Tree *Tree `json:"tree,omitempty"`
+}
+
+// TPkg is one source package of a tree case. Every package declares the interfaces Svc and
+// Other; the root config selects both by include-interface-regex, so that packages which are
+// only reached through a recursive ancestor are mocked too.
+type TPkg struct {
+	Dir       string        `json:"dir"`                     // par, par/sa, par/sb (sub-packages of par), oth
+	Listed    bool          `json:"listed"`                  // has its own entry under packages:
+	Recursive bool          `json:"recursive,omitempty"`     // recursive: true in its config (par only)
+	Rules     []Rule        `json:"rules,omitempty"`         // replace-type of the package config (listed only)
+	IfListed  bool          `json:"ifaces_listed,omitempty"` // Svc and Other written under interfaces:
+	SvcRules  []Rule        `json:"svc_rules,omitempty"`     // replace-type of Svc's config (IfListed only)
+	Svc       []progen.Meth `json:"svc"`
+	Other     []progen.Meth `json:"other"`
+}
+
+type Tree struct {
+	Pkgs []TPkg `json:"pkgs"`
+	// Compile: also render through the built-in template and type-check (the import
+	// bookkeeping per file is the single-package shape's subject; a third of the tree cases
+	// repeat it over several packages).
+	Compile bool `json:"compile,omitempty"`
 }
 
 const modPath = "example.com/m"
@@ -133,6 +162,9 @@ func gen(t *rapid.T) Case {
 	}
 	if len(pool) == 0 {
 		pool = []cand{{"alpha", "MyInt"}}
+	}
+	if rapid.IntRange(0, 2).Draw(t, "shape") == 2 {
+		return genTree(t, pool)
 	}
 	c := Case{
 		Svc:       genMethods(t, pool, "S"),
@@ -374,13 +406,16 @@ func parseDump(s string) dump {
 var refRe = regexp.MustCompile(`<([^<>]*)>\.`)
 
 func run(c Case) *vh.Violation {
+	if c.Tree != nil {
+		return runTree(c)
+	}
 	levels := 0
 	for _, l := range [][]Rule{c.Root, c.Package, c.Iface, c.Entry} {
 		if len(l) > 0 {
 			levels++
 		}
 	}
-	cl := []string{fmt.Sprintf("levels=%d", levels), fmt.Sprintf("entries=%d", c.Entries), fmt.Sprintf("listed=%v", c.Listed), fmt.Sprintf("inpkg=%v", c.InPackage), "template=" + c.Template}
+	cl := []string{"shape=single-package", fmt.Sprintf("levels=%d", levels), fmt.Sprintf("entries=%d", c.Entries), fmt.Sprintf("listed=%v", c.Listed), fmt.Sprintf("inpkg=%v", c.InPackage), "template=" + c.Template}
 	if len(c.Root) > 0 {
 		cl = append(cl, "level:root")
 	}
@@ -600,5 +635,5 @@ func run(c Case) *vh.Violation {
 }
 
 func TestProp(t *testing.T) {
-	vh.Main(t, vh.Check[Case]{Gen: gen, Run: run})
+	vh.Main(t, vh.Check[Case]{Gen: gen, Run: run, Reduce: reduce})
 }
